@@ -33,6 +33,26 @@ pub fn run_grid(ctx: &Ctx, spec: GridSpec) {
             }
         }
     }
+    // Deterministic permutation (multiplicative stride coprime to n): the grid is generated
+    // script-major, so if the wall cap cuts the leg short the configurations that did run are
+    // spread over all scripts instead of being the first few scripts only.
+    let spec = {
+        let mut spec = spec;
+        let n = spec.cfgs.len();
+        if n > 2 {
+            fn gcd(a: usize, b: usize) -> usize {
+                if b == 0 { a } else { gcd(b, a % b) }
+            }
+            let mut stride = ((n as f64) * 0.618).round() as usize | 1;
+            while gcd(stride, n) != 1 {
+                stride += 2;
+            }
+            let old = std::mem::take(&mut spec.cfgs);
+            let mut slots: Vec<Option<Cfg>> = old.into_iter().map(Some).collect();
+            spec.cfgs = (0..n).map(|i| slots[(i * stride) % n].take().expect("permutation")).collect();
+        }
+        spec
+    };
     let results: Vec<Option<ExploreStats>> = vcommon::par_map(&spec.cfgs, vcommon::ncpu(), |_, cfg| {
         if t0.elapsed().as_secs_f64() > spec.wall_cap_s {
             return None;
